@@ -22,7 +22,8 @@ JudgeIntersect(B) ==
             SumSeq([j \in 1..Len(B.pairs) |-> LET r == TwoFinger("and", B.pairs[j][1], B.pairs[j][2])
                                                  IN IF q = 1 THEN Min(r.ia, Len(B.pairs[j][1])) ELSE Min(r.ib, Len(B.pairs[j][2]))])>>])
 JudgeSwaps(B) ==
-  LET exp == SwapsOf(B.lists, B.radix, B.lat) + (IF B.deep = 1 THEN 0 ELSE 0)
+  \* sibling groups one level above the merged rank are merged independently, each with the radix given (lists2: a second group; deep: a one-list sibling)
+  LET exp == SwapsOf(B.lists, B.radix, B.lat) + (IF B.lists2 # <<>> THEN SwapsOf(B.lists2, B.radix, B.lat) ELSE 0)
   IN Fails(<< <<IF B.lat = -1 THEN "P:C19:swaps-compares" ELSE "P:C19:swaps-latency", B.swaps[1] = exp>>,
               <<"P:C19:swaps-payload-free", B.swaps[1] = B.swaps[2]>> >>)
 Judge(B) == IF B.exc # "ok" THEN <<"P:C19:no-exception">> ELSE IF B.kind = "intersect" THEN JudgeIntersect(B) ELSE JudgeSwaps(B)
